@@ -293,6 +293,20 @@ pair: KEY ":" VAL
 KEY: /"[a-z]{1,6}"/
 VAL: /"[^"\\\x00-\x1F\x7F\xFF]{0,9}"/ | /"[^"\\\x00-\x1F\x7F\xFF]{11,31}"/ | /[0-9]{1,4}/
 "##),
+    // temperature= (outside the core fragment; drawn only by the sampling-loop families of C11 / C17)
+    g!("temp_two", Lark, "prod temp", r##"start: a ":" b "."
+a[temperature=0.3]: /[a-z]{1,8}/
+b[temperature=1.25]: /[0-9]{1,5}/
+"##),
+    g!("temp_list", Lark, "prod temp", r##"start: item ("," item)* ";"
+item: word | num
+word[temperature=0.7]: /[a-z]+/
+num[temperature=0.05]: /[0-9]+/ "!"
+"##),
+    g!("temp_json", Lark, "prod temp", r##"start: "cold:" cold " hot:" hot
+cold[temperature=0.1]: %json {"type":"object","properties":{"a":{"type":"integer"}},"required":["a"],"additionalProperties":false}
+hot[temperature=1.5]: /[a-z ]{1,12}/ "."
+"##),
     g!("three_classes", Lark, "prod str", r##"start: item (" " item)*
 item: /[a-z]+/ | /[0-9]+/ | /[A-Z]{1,2}/
 "##),
